@@ -111,6 +111,20 @@ class C15(Scenario):
             # weights scaled below the smallest double: entries 0.0 beside means / extrema / keys that stay. The document
             # must still be accepted (this property); what a reload makes of such a state is not demanded here
             w.bump("probe_underflow_state_accepted")
+
+            def skeleton(x):
+                # the document without its numbers: keys, bins, list lengths, type names
+                if isinstance(x, dict):
+                    return {k_: skeleton(v_) for k_, v_ in x.items()}
+                if isinstance(x, list):
+                    return [skeleton(v_) for v_ in x]
+                return "#" if grammar.is_num(x) else x
+
+            if skeleton(again) != skeleton(observe.normalise(doc)):
+                d = observe.doc_diff(skeleton(observe.normalise(doc)), skeleton(again)) or ([], sp["p"], "?")
+                raise self.violation(d[1], "fromJson", "dropped-content:%s" % d[2],
+                                     "the reload of a valid document has another structure than the document (something was dropped or added at %s)" % (d[0],), 0,
+                                     {"doc": observe.normalise(doc), "again": again})
         elif again != observe.normalise(doc):
             d = observe.doc_diff(observe.normalise(doc), again) or ([], sp["p"], "?")
             raise self.violation(d[1], "fromJson", "fixpoint:%s" % d[2], "reload of the unmutated document re-serialises differently", 0)
